@@ -98,7 +98,7 @@ CORR = {"entitled_withdrawal_failed": corrupt_fail}
 def run_shard(acc, prop, tier, seed, shard, nshards, **kw):
     w = dict(WEIGHTS)
     w.pop("inject")
-    _w.shard(acc, PROP, tier, seed, shard, nshards, factory, w, (12, (140, 220)), (300, (140, 300)), CORR, pre_hook=pre_hook)
+    _w.shard(acc, PROP, tier, seed, shard, nshards, factory, w, (16, (140, 220)), (300, (140, 300)), CORR, pre_hook=pre_hook)
 
 
 def floors(acc, tier):
